@@ -43,3 +43,57 @@ Theorem C15_root_is_special :
     excl ps a = true /\ comp_prefix (comps a) (comps b) = true /\ excl ps b = false.
 Proof. exact excl_ancestor_closed_refuted. Qed.
 Print Assumptions C15_root_is_special.
+
+(* ---- operational: the backup program, the archive, the restore / listing programs ---- *)
+From Coq Require Import List NArith.
+From CV Require Import Entry Store StitchProg Backup Read Conf Truth E2E Select SelectP.
+Local Open Scope N_scope.
+
+(* For ANY exclusion predicate x: (i) backing up the source WITH the exclusions and restoring
+   everything, and (ii) backing up the FULL source and restoring with the exclusions, both
+   succeed without error and return the same source items (those not excluded), in the same
+   order, each with the source's metadata and bytes. *)
+Theorem C15_exclusions_agree_between_backup_and_restore :
+  forall (x : str -> bool) (pre : bytes -> N) (c : cfg) (src : list sitem) (a0 : Store.arch),
+    Ready pre a0 -> SrcSorted src -> SrcValid src -> SrcWF src -> cfg_ok c ->
+    (exists trE aE rE,
+       run pre (backup_prog pre c (src_excl x src)) a0 [] = (trE, aE, Store.Done rE)
+       /\ b_ok rE = true /\ b_errors rE = 0 /\ b_band rE = Some (new_band a0)
+       /\ exists tr' rrE,
+            run pre (restore_prog (Specified (new_band a0)) keep_all) aE [] = (tr', aE, Store.Done rrE)
+            /\ r_ok rrE = true /\ r_merr rrE = 0
+            /\ Forall2 (item_restored c a0) (known_items (src_excl x src)) (r_files rrE))
+    /\
+    (exists trF aF rF,
+       run pre (backup_prog pre c src) a0 [] = (trF, aF, Store.Done rF)
+       /\ b_ok rF = true /\ b_errors rF = 0 /\ b_band rF = Some (new_band a0)
+       /\ exists tr' rrF,
+            run pre (restore_prog (Specified (new_band a0)) (excl_keep x)) aF [] = (tr', aF, Store.Done rrF)
+            /\ r_ok rrF = true /\ r_merr rrF = 0
+            /\ Forall2 (item_restored c a0) (known_items (src_excl x src)) (r_files rrF)).
+Proof. exact Select_exclusions_agree. Qed.
+Print Assumptions C15_exclusions_agree_between_backup_and_restore.
+
+(* ... and the two listings show the same paths. *)
+Theorem C15_exclusions_agree_between_backup_and_listing :
+  forall (x : str -> bool) (pre : bytes -> N) (c : cfg) (src : list sitem) (a0 : Store.arch),
+    Ready pre a0 -> SrcSorted src -> SrcValid src -> SrcWF src -> cfg_ok c ->
+    let aE := snd (fst (run pre (backup_prog pre c (src_excl x src)) a0 [])) in
+    let aF := snd (fst (run pre (backup_prog pre c src) a0 [])) in
+    exists trE lE trF lF,
+      run pre (list_prog (Specified (new_band a0)) keep_all) aE [] = (trE, aE, Store.Done lE)
+      /\ run pre (list_prog (Specified (new_band a0)) (excl_keep x)) aF [] = (trF, aF, Store.Done lF)
+      /\ l_ok lE = true /\ l_ok lF = true /\ l_merr lE = 0 /\ l_merr lF = 0
+      /\ map e_apath (l_entries lE) = map spath (known_items (src_excl x src))
+      /\ map e_apath (l_entries lF) = map spath (known_items (src_excl x src)).
+Proof. exact Select_exclusions_agree_listing. Qed.
+Print Assumptions C15_exclusions_agree_between_backup_and_listing.
+
+(* The source WITH exclusions is what the pruning walk yields (the root set aside). *)
+Theorem C15_pruning_walk_yields_the_excluded_source :
+  forall (M : Type) (mk : item M -> sitem) (pats : list str) (t : tree M),
+    WFtree t -> (forall it, spath (mk it) = path it) ->
+    map mk (walk_rec (excl_text pats) t)
+    = src_excl_walk (excl_text pats) (map mk (walk_rec (fun _ => false) t)).
+Proof. exact Select_walk_source_excl. Qed.
+Print Assumptions C15_pruning_walk_yields_the_excluded_source.
